@@ -563,7 +563,7 @@ def correspond(ctx):
         if jb.mode == "A":
             jb.kw.setdefault("deadline", deadline)      # never an endless exploration (bounded jobs: exhaustive=false)
     cdis = guarded(ctx, "corpus", run_corpus)
-    gdis = guarded(ctx, "soc-glue", glue_runs)
+    gdis = guarded(ctx, "soc-glue", glue_runs) + guarded(ctx, "glue-address", glue_addr_tie)
     try:
         dis, bad = run_jobs(ctx, ctx.jobs)
     except Exception as e:
@@ -631,6 +631,50 @@ def bus_glue_grid(tier, seed=0):
     rest = [c for c in full if c not in key]
     k = (seed * 5) % len(rest)
     return key + (rest + rest)[k:k + 8]
+
+
+def glue_addr_tie(ctx):
+    """Tie of `glueSubAddr` (DownConverter sub-word address through C09's byte map of the addressing glue): the AR/AW
+    addresses the add_adapter-built chain (wishbone.Converter + word->byte re-wiring + Wishbone2AXILite) puts on a
+    byte-addressed AXI-Lite bus for a wide Wishbone access are exactly the model's, in order."""
+    from explore import Disagreement
+    out = []
+    for bus_dw, m_dw in ((32, 64), (32, 128), (64, 128)):
+        top = L.build_bus_glue("axi-lite", bus_dw, m_dw, "word", bus_dw, mem_bytes=1024)
+        nl, m, ax = L.FastNetlist(top), top.master, top.m_ad
+        nbs, ratio = bus_dw // 8, m_dw // bus_dw
+        adrs = [0, 1, 2, 5, 1024 // (m_dw // 8) - 1] + [ctx.rng.randrange(1024 // (m_dw // 8)) for _ in range(6)]
+        reqs = [(a, we) for a in adrs for we in (0, 1)]
+        model = ctx.lean.call_batch(["glue_subaddrs %d %d %d %d" % (nbs, L.log2i(ratio), L.log2i(nbs), a) for a, _ in reqs])
+        n_ok = 0
+        for (a, we), ml in zip(reqs, model):
+            seen = []
+            for t in range(200):
+                for sig, v in zip((m.cyc, m.stb, m.we, m.adr, m.sel, m.dat_w, m.cti, m.bte),
+                                  (1, 1, we, a, (1 << (m_dw // 8)) - 1, 0x1122334455667788, 0, 0)):
+                    nl.set(sig, v)
+                nl.settle()
+                ch = ax.aw if we else ax.ar
+                if nl.getu(ch.valid) and nl.getu(ch.ready):
+                    seen.append(nl.getu(ch.addr))
+                ack = nl.getu(m.ack)
+                nl.tick()
+                if ack:
+                    break
+            nl.set(m.cyc, 0)
+            nl.set(m.stb, 0)
+            nl.settle()
+            nl.tick()
+            exp = [int(x) for x in ml.split()]
+            if seen != exp:
+                inst = type("GlueAddr", (), {"name": "add_adapter address tie: wishbone %d-bit on axi-lite %d-bit" % (m_dw, bus_dw)})()
+                out.append({"kind": "glue-address", "instance": inst.name,
+                            "what": "wide %s of word %#x: bus addresses %r, model (Converter + shift by log2(bus bytes)) %r"
+                                    % ("write" if we else "read", a, seen, exp)})
+            else:
+                n_ok += 1
+        ctx.cov.add_cases("add_adapter address tie wishbone %d / axi-lite %d" % (m_dw, bus_dw), len(reqs), n_ok)
+    return out
 
 
 def glue_instances(tier="quick", seed=0):
